@@ -521,8 +521,9 @@ func ValidTopicFilter(mustUTF8 bool, p []byte) bool {
 	if len(p) == 0 {
 		return false
 	}
-	var prevByte byte //前一个字节
-	var isSetPrevByte bool
+	// the start of the filter behaves like the start of a level: as if preceded by '/'
+	var prevByte byte = '/' //前一个字节
+	var isSetPrevByte = true
 
 	for len(p) > 0 {
 		ru, size := utf8.DecodeRune(p)
